@@ -261,3 +261,28 @@ Proof.
   destruct (add_all c rs) as [c'| |] eqn:Ea; simpl; try discriminate.
   intros _. exists c'. split; [apply slookup_sset_same|]. apply add_all_docs. exact Ea.
 Qed.
+
+(* ---------- restarts inside histories ---------- *)
+Definition is_restart (rq : request) : bool := match rq with Restart => true | _ => false end.
+Definition no_restarts (rqs : list request) : list request := filter (fun r => negb (is_restart r)) rqs.
+
+Lemma run_append : forall a b s,
+  run s (a ++ b) = (fst (run (fst (run s a)) b), snd (run s a) ++ snd (run (fst (run s a)) b)).
+Proof.
+  induction a as [|rq a IH]; intros b s.
+  - change (run s []) with (s, @nil response). cbn [app fst snd]. destruct (run s b); reflexivity.
+  - rewrite <- app_comm_cons, !run_cons. cbn [fst snd]. rewrite IH. cbn [fst snd]. reflexivity.
+Qed.
+
+(* restarting the server at any points of a history, any number of times, changes neither the final state nor any
+   response to the other requests *)
+Theorem restarts_transparent : forall rqs s,
+  fst (run s rqs) = fst (run s (no_restarts rqs))
+  /\ map snd (filter (fun p => negb (is_restart (fst p))) (combine rqs (snd (run s rqs)))) = snd (run s (no_restarts rqs)).
+Proof.
+  induction rqs as [|rq rest IH]; intros s; [split; reflexivity|].
+  rewrite run_cons. cbn [fst snd combine filter no_restarts]. fold (no_restarts rest).
+  destruct (is_restart rq) eqn:E; cbn [negb].
+  - destruct rq; try discriminate. cbn [handle fst snd]. apply IH.
+  - rewrite run_cons. cbn [fst snd map]. destruct (IH (fst (handle s rq))) as [H1 H2]. rewrite H1, H2. split; reflexivity.
+Qed.
